@@ -134,8 +134,10 @@ func pick(res *core.Result, cols ...string) []string {
 // PROCEDURE/FUNCTION STATUS + SHOW CREATE PROCEDURE, SHOW EVENTS. Volatile columns (timestamps) are
 // projected away. Temporary tables, session variables, prepared statements, global variables and
 // accounts are deliberately not part of it.
-func Fingerprint(e *core.Eng) *FP {
-	s := e.NewSess()
+func Fingerprint(e *core.Eng) *FP { return FingerprintOn(e.NewSess()) }
+
+// FingerprintOn computes the fingerprint through the given (fresh) session.
+func FingerprintOn(s *core.Sess) *FP {
 	// the engine's default database may have been dropped by the statement under observation
 	s.S.SetCurrentDatabase("information_schema")
 	fp := &FP{DBs: map[string][]string{}}
@@ -155,6 +157,14 @@ func Fingerprint(e *core.Eng) *FP {
 		}
 		var lines []string
 		qd := quoteIdent(db)
+		q = "SHOW CREATE DATABASE " + qd
+		if r := s.Exec(q); r.Failed() {
+			fail(q, r)
+		} else {
+			for _, l := range pick(r, "Create Database") {
+				lines = append(lines, "CREATE DATABASE "+l)
+			}
+		}
 		q = "SHOW FULL TABLES FROM " + qd
 		tr := s.Exec(q)
 		if tr.Failed() {
